@@ -39,9 +39,9 @@ class ConcreteEngine:
     def choice(self, n: int, name: str = "c") -> int:
         if n <= 0:
             raise PathAbort()
+        v = self.values.get(self._name(name))
         if n == 1:
             return 0
-        v = self.values.get(self._name(name))
         return int(v) if v is not None else 0
 
     def pick(self, seq: Any, name: str = "pick") -> Any:
